@@ -483,13 +483,15 @@ func buildTargets() []*target {
 				return rej(err, "rejected:decode")
 			}
 			remarshal(&rt)
-			_ = rt.ActiveDeployment(1)
-			_ = rt.NextDeployment(1)
-			_, _ = rt.StakingAddress()
 			if err := registry.VerifyRuntime(params, logger, &rt, 1, registry.VerifyRuntimeOptions{IsFeatureVersion261: true}); err != nil {
 				_ = registry.VerifyRuntime(params, logger, &rt, 1, registry.VerifyRuntimeOptions{IsGenesis: true, IsSanityCheck: true})
 				return rej(err, "rejected:verify")
 			}
+			// Accessors walking rt.Deployments are only reached behind VerifyRuntime
+			// (ValidateDeployments rejects nil entries).
+			_ = rt.ActiveDeployment(1)
+			_ = rt.NextDeployment(1)
+			_, _ = rt.StakingAddress()
 			return "verified"
 		}})
 
@@ -760,6 +762,111 @@ func buildTargets() []*target {
 	add(&target{name: "writelog-keys", boundary: "write logs (key lengths around 2^13 and 2^16 bytes)", cbor: true,
 		path:  "cbor.Unmarshal(writelog.WriteLog) -> mkvs.Tree.ApplyWriteLog [tree.Insert -> doInsert -> Key.GetBit / Split with uint16 bit depths] -> Commit",
 		seeds: longKeyLogs, run: runWriteLog})
+
+	// ---------------------------------------------------------------- read requests with long keys
+	// Storage nodes answer SyncGet / SyncGetPrefixes / SyncIterate requests of untrusted peers
+	// (and runtimes issue them through the host protocol); the key is attacker-chosen. The tree
+	// holds maximal-length (8191-byte) keys and their long-prefix neighbours.
+	rtree := mkvs.New(nil, nil, mkvsNode.RootTypeState)
+	longA := bytes.Repeat([]byte{0xaa}, 8191)
+	for i, k := range [][]byte{
+		longA, append(bytes.Repeat([]byte{0xaa}, 8190), 0xab), longA[:8190], longA[:8189], longA[:4096], longA[:1],
+		append(bytes.Repeat([]byte{0xaa}, 8190), 0x2a), []byte("x"), {},
+	} {
+		if err := rtree.Insert(ctxBg, k, []byte{byte(i)}); err != nil {
+			panic(err)
+		}
+	}
+	_, rroot, err := rtree.Commit(ctxBg, w.rtID, 1)
+	if err != nil {
+		panic(err)
+	}
+	rrootN := mkvsNode.Root{Namespace: w.rtID, Version: 1, Type: mkvsNode.RootTypeState, Hash: rroot}
+	var readSeeds [][]byte
+	for _, n := range []int{8190, 8191, 8192, 8193, 8200, 16383, 16384, 65535, 65536, 65537} {
+		readSeeds = append(readSeeds, bytes.Repeat([]byte{0xaa}, n), append(bytes.Repeat([]byte{0xaa}, n-1), 0xab),
+			append(bytes.Repeat([]byte{0xaa}, n-1), 0x00))
+	}
+	tid := syncer.TreeID{Root: rrootN, Position: rroot}
+	checkProof := func(rsp *syncer.ProofResponse) {
+		var pvf syncer.ProofVerifier
+		if _, err := pvf.VerifyProof(ctxBg, rroot, &rsp.Proof); err != nil {
+			panic("the tree returned a proof that does not verify: " + err.Error())
+		}
+	}
+	readOps := []struct {
+		name, path string
+		op         func(key []byte) string
+	}{
+		{"tree-get", "mkvs.Tree.Get(key)", func(key []byte) string {
+			v, err := rtree.Get(ctxBg, key)
+			if err != nil {
+				return rej(err, "rejected:get")
+			}
+			if v != nil {
+				return "hit"
+			}
+			return "miss"
+		}},
+		{"tree-seek", "mkvs.Tree.NewIterator().Seek(key), Next x3", func(key []byte) string {
+			it := rtree.NewIterator(ctxBg)
+			defer it.Close()
+			it.Seek(key)
+			for i := 0; i < 3 && it.Valid(); i++ {
+				it.Next()
+			}
+			if err := it.Err(); err != nil {
+				return rej(err, "rejected:iterate")
+			}
+			return "iterated"
+		}},
+		{"tree-syncget", "mkvs.Tree.SyncGet (storage pub p2p MethodGet / consensus StateSyncGet / host protocol HostStorageSync)", func(key []byte) string {
+			for _, pv := range []uint16{0, 1} {
+				rsp, err := rtree.SyncGet(ctxBg, &syncer.GetRequest{Tree: tid, Key: key, IncludeSiblings: pv == 1, ProofVersion: pv})
+				if err != nil {
+					return rej(err, "rejected:syncget")
+				}
+				checkProof(rsp)
+			}
+			return "proved"
+		}},
+		{"tree-syncgetprefixes", "mkvs.Tree.SyncGetPrefixes (storage pub p2p MethodGetPrefixes / consensus StateSyncGetPrefixes / host protocol)", func(key []byte) string {
+			for _, pv := range []uint16{0, 1} {
+				rsp, err := rtree.SyncGetPrefixes(ctxBg, &syncer.GetPrefixesRequest{Tree: tid, Prefixes: [][]byte{key, key[:len(key)/2]}, Limit: 4, ProofVersion: pv})
+				if err != nil {
+					return rej(err, "rejected:syncgetprefixes")
+				}
+				checkProof(rsp)
+			}
+			return "proved"
+		}},
+		{"tree-synciterate", "mkvs.Tree.SyncIterate -> iterator Seek(request.Key) (storage pub p2p MethodIterate: worker/storage/p2p/pub/server.go; consensus gRPC StateSyncIterate; host protocol HostStorageSync)", func(key []byte) string {
+			for _, pv := range []uint16{0, 1} {
+				rsp, err := rtree.SyncIterate(ctxBg, &syncer.IterateRequest{Tree: tid, Key: key, Prefetch: 3, ProofVersion: pv})
+				if err != nil {
+					return rej(err, "rejected:synciterate")
+				}
+				checkProof(rsp)
+			}
+			return "proved"
+		}},
+		{"tree-write-keys", "mkvs.Tree.Insert / RemoveExisting(key) next to 8191-byte keys (must refuse or succeed)", func(key []byte) string {
+			wt := mkvs.New(nil, nil, mkvsNode.RootTypeState)
+			defer wt.Close()
+			_ = wt.Insert(ctxBg, longA, []byte{1})
+			_ = wt.Insert(ctxBg, longA[:8190], []byte{2})
+			errIns := wt.Insert(ctxBg, key, []byte{3})
+			_, errRem := wt.RemoveExisting(ctxBg, key)
+			if errIns != nil || errRem != nil {
+				return "refused"
+			}
+			return "written"
+		}},
+	}
+	for _, ro := range readOps {
+		add(&target{name: ro.name, boundary: "storage requests with attacker-chosen keys (lengths around 2^13 and 2^16 bytes) on a tree holding 8191-byte keys and long-prefix neighbours",
+			path: ro.path, seeds: readSeeds, run: ro.op})
+	}
 
 	// ---------------------------------------------------------------- checkpoint chunks
 	add(chunkTarget(w, tree, root))
